@@ -27,9 +27,10 @@ type frame struct {
 	panics bool
 	call   ssa.CallInstruction
 	// atoms and fact keys created for this activation (cleaned at return)
-	rpo    []*ssa.BasicBlock
-	loops  map[int]*loopInfo
-	cur    *ssa.BasicBlock
+	rpo   []*ssa.BasicBlock
+	loops map[int]*loopInfo
+	cur   *ssa.BasicBlock
+	snap  map[int][]Atom // loop header -> memory cells snapshotted at loop entry (variants over memory)
 }
 
 type loopInfo struct {
@@ -94,16 +95,59 @@ func (e *Engine) Eval(fn *ssa.Function, st *State, check bool, call ssa.CallInst
 	}
 	e.Universe[fn] = true
 	fr := &frame{fn: fn, in: map[int]*State{}, edges: map[edgeKey]*State{}, visits: map[int]int{}, call: call,
-		rpo: rpoOf(fn), loops: findLoops(fn)}
+		rpo: rpoOf(fn), loops: findLoops(fn), snap: map[int][]Atom{}}
 	e.stack = append(e.stack, fr)
 	defer func() { e.stack = e.stack[:len(e.stack)-1] }()
 
-	fr.in[0] = st
+	if e.Trace != nil {
+		e.trace("ENTER %s: %s", shortFn(fn), st.String())
+	}
+	fr.in = map[int]*State{0: st}
+	e.fixpoint(fr)
+	if e.Exceeded {
+		return nil, false
+	}
+	// final pass: obligations + returns
+	fr.check = check
+	fr.rets = nil
+	// The final pass propagates states forward once more (loop headers start
+	// from their invariant), so that ghost snapshots bound at loop headers reach
+	// the back edges.
+	fix := fr.in
+	fixEdges := fr.edges
+	fr.in = map[int]*State{0: fix[0]}
+	fr.edges = map[edgeKey]*State{}
+	for _, b := range fr.rpo {
+		if fix[b.Index] == nil || fix[b.Index].dead {
+			continue
+		}
+		if b.Index != 0 {
+			if _, isLoop := fr.loops[b.Index]; isLoop {
+				fr.in[b.Index] = fix[b.Index]
+			} else {
+				in := e.entryState(fr, b)
+				if in == nil {
+					continue
+				}
+				fr.in[b.Index] = in
+			}
+		}
+		e.runBlock(fr, b, true)
+	}
+	_ = fixEdges
+	if check {
+		e.checkLoops(fr)
+	}
+	return fr.rets, fr.panics
+}
+
+func (e *Engine) fixpoint(fr *frame) {
+	fn := fr.fn
 	dirty := map[int]bool{0: true}
 	for iter := 0; len(dirty) > 0 && iter < 200; iter++ {
 		if e.Steps > e.MaxSteps {
 			e.Exceeded = true
-			return nil, false
+			return
 		}
 		progressed := false
 		for _, b := range fr.rpo {
@@ -121,7 +165,9 @@ func (e *Engine) Eval(fn *ssa.Function, st *State, check bool, call ssa.CallInst
 				if isLoop && old != nil {
 					fr.visits[b.Index]++
 					if fr.visits[b.Index] > widenDelay {
+						NoThresholds = fr.visits[b.Index] > widenDelay+8
 						newIn = Join(old, newIn, e.liveAt(b), true)
+						NoThresholds = false
 					}
 				}
 				if old != nil && newIn.SameAs(old) {
@@ -142,19 +188,17 @@ func (e *Engine) Eval(fn *ssa.Function, st *State, check bool, call ssa.CallInst
 			break
 		}
 	}
-	// final pass: obligations + returns
-	fr.check = check
-	fr.rets = nil
-	for _, b := range fr.rpo {
-		if fr.in[b.Index] == nil || fr.in[b.Index].dead {
-			continue
-		}
-		e.runBlock(fr, b, true)
+}
+
+// snapAtom: ghost atom holding the value of memory cell a at the entry of the current iteration of loop h.
+func (e *Engine) snapAtom(fr *frame, h int, a Atom) Atom {
+	key := fmt.Sprintf("%p/%d/%d", fr.fn, h, a)
+	if s, ok := e.snapAtoms[key]; ok {
+		return s
 	}
-	if check {
-		e.checkLoops(fr)
-	}
-	return fr.rets, fr.panics
+	s := e.newAtom(fmt.Sprintf("snap%d(%s)", h, e.atomName(a)), e.atoms[a].rng)
+	e.snapAtoms[key] = s
+	return s
 }
 
 // liveAt: atoms that can still matter at block b: values whose definition
@@ -214,7 +258,12 @@ func (e *Engine) entryState(fr *frame, b *ssa.BasicBlock) *State {
 		if acc == nil {
 			acc = s
 		} else {
+			if e.Trace != nil && e.TraceFn != "" && strings.Contains(shortFn(fr.fn), e.TraceFn) {
+				e.TraceJoin = true
+				e.trace("JOIN at %s b%d\n   A: %s\n   B: %s", shortFn(fr.fn), b.Index, acc.String(), s.String())
+			}
 			acc = Join(acc, s, live, false)
+			e.TraceJoin = false
 		}
 	}
 	return acc
@@ -287,6 +336,31 @@ func isBool(t types.Type) bool {
 func (e *Engine) runBlock(fr *frame, b *ssa.BasicBlock, final bool) {
 	st := fr.in[b.Index].Clone()
 	fr.cur = b
+	if _, isLoop := fr.loops[b.Index]; isLoop {
+		lk := fmt.Sprintf("%p/%d", fr.fn, b.Index)
+		if _, ok := st.loopEnter[lk]; !ok {
+			st.loopEnter[lk] = e.nextVer()
+		}
+		if final && fr.check {
+			// ghost snapshots of the memory cells at the loop head: termination
+			// variants over memory compare them with the values on the back edges
+			var cells []Atom
+			for _, a := range e.cellAtom {
+				if e.isCell[a] && mentionsAtom(st, a) {
+					cells = append(cells, a)
+				}
+			}
+			sort.Slice(cells, func(i, j int) bool { return cells[i] < cells[j] })
+			fr.snap[b.Index] = cells
+			for _, a := range cells {
+				sa := e.snapAtom(fr, b.Index, a)
+				st.Forget(sa)
+				if v := st.Expr(a); !v.Bad {
+					st.def[sa] = v
+				}
+			}
+		}
+	}
 	saveCheck := fr.check
 	if !final {
 		fr.check = false
@@ -588,7 +662,7 @@ func (e *Engine) bitClearRefine(st *State, cmp *ssa.BinOp) {
 		return
 	}
 	xe := e.expr(st, x)
-	if st.Entails(xe) && st.Entails(Const(2*m - 1).Sub(xe)) {
+	if st.Entails(xe) && st.Entails(Const(2*m-1).Sub(xe)) {
 		st.Assume(Const(m - 1).Sub(xe))
 	}
 }
@@ -629,7 +703,7 @@ func (e *Engine) checkLoops(fr *frame) {
 // back edge by a loop-invariant expression or constant.
 func (e *Engine) loopTerminates(fr *frame, l *loopInfo) (bool, string) {
 	h := l.header
-	head := fr.in[h.Index]
+	_ = fr.in[h.Index]
 	type cand struct {
 		name string
 		atom Atom
@@ -648,27 +722,11 @@ func (e *Engine) loopTerminates(fr *frame, l *loopInfo) (bool, string) {
 			cands = append(cands, cand{"len(" + phi.Name() + ")", e.lenAtomOf(phi), func(s *State, i int) Lin { return e.lenExpr(s, phi.Edges[i]) }})
 		}
 	}
-	// memory cells that differ between head and back edges
-	cellSeen := map[Atom]bool{}
-	for key, a := range e.cellAtom {
-		_ = key
-		for idx, p := range h.Preds {
-			if !h.Dominates(p) {
-				continue
-			}
-			_ = idx
-			es := fr.edges[edgeKey{p.Index, h.Index}]
-			if es == nil || es.dead {
-				continue
-			}
-			if !es.Expr(a).Equal(head.Expr(a)) || mentions(es, a) {
-				if !cellSeen[a] {
-					cellSeen[a] = true
-					a := a
-					cands = append(cands, cand{e.atomName(a), a, func(s *State, i int) Lin { return s.Expr(a) }})
-				}
-			}
-		}
+	// memory cells written in the loop: compare with their snapshot taken at the loop head
+	for _, a := range fr.snap[h.Index] {
+		a := a
+		sa := e.snapAtom(fr, h.Index, a)
+		cands = append(cands, cand{e.atomName(a), sa, func(s *State, i int) Lin { return s.Expr(a) }})
 	}
 	sort.SliceStable(cands, func(i, j int) bool { return cands[i].atom < cands[j].atom })
 	var tried []string
@@ -687,6 +745,9 @@ func (e *Engine) loopTerminates(fr *frame, l *loopInfo) (bool, string) {
 				// on the back edge, before the phi assignment, the atom still holds the value at loop entry of this iteration
 				cur := es.Expr(c.atom)
 				nxt := c.next(es, idx)
+				if e.Trace != nil {
+					e.trace("T-LOOP %s b%d cand %s dir %d: cur=%s next=%s", shortFn(fr.fn), h.Index, c.name, dir, e.linStr(cur), e.linStr(es.Subst(nxt)))
+				}
 				// strict progress
 				if !es.Entails(nxt.Sub(cur).Scale(dir).AddConst(-1)) {
 					okAll = false
